@@ -71,6 +71,7 @@ type Params struct {
 }
 
 type hist struct {
+	ledArmBase int // ledger call index at the last armFault/disarmFault
 	r     *ev.Run
 	p     Params
 	rng   *rand.Rand
@@ -284,11 +285,16 @@ func (h *hist) armFault() {
 		return
 	}
 	// only reads and KMS calls fail: the properties decided here presuppose a metastore that accepts writes
-	if h.rng.Intn(4) == 0 {
+	switch x := h.rng.Intn(8); {
+	case x < 2:
 		h.w.KMS.Faults[h.w.KMS.N()+h.rng.Intn(2)] = true
-	} else {
+	case x == 2:
+		// the secure-memory allocator refuses one of the next few secrets (mlock limit reached)
+		h.w.Led.FailAt[h.w.Led.Calls()+h.rng.Intn(3)] = true
+	default:
 		h.w.MS.ReadFaultIn = 1 + h.rng.Intn(3)
 	}
+	h.ledArmBase = h.w.Led.Calls()
 	h.r.Count("transient_faults_armed", 1)
 }
 
@@ -306,9 +312,18 @@ func (h *hist) disarmFault(msFrom, kmsFrom int) bool {
 			fired = true
 		}
 	}
+	for _, c := range h.w.Led.CallLog(h.ledArmBase) {
+		if c.Failed {
+			fired = true
+		}
+	}
+	h.ledArmBase = h.w.Led.Calls()
 	h.w.MS.ReadFaultIn = 0
 	for k := range h.w.KMS.Faults {
 		delete(h.w.KMS.Faults, k)
+	}
+	for k := range h.w.Led.FailAt {
+		delete(h.w.Led.FailAt, k)
 	}
 	if fired {
 		h.r.Count("transient_faults_fired", 1)
@@ -354,6 +369,10 @@ func (h *hist) encrypt(s *sess) {
 	faulted := h.disarmFault(msFrom, kmsFrom)
 	if err != nil {
 		h.logf("factory#%d %q encrypt FAILED (fault injected=%v): %v", s.fa.id, s.part, faulted, err)
+		if h.p.Oracles&OC03 != 0 {
+			// the keys this failed call created and wrapped are still typed against the envelope hierarchy
+			h.c03Advance(&encCtx{s: s, label: label, payload: before, msFrom: msFrom, failed: true})
+		}
 		if faulted {
 			return
 		}
